@@ -897,6 +897,15 @@ static void e1_guarded(void (*fn)(void *), void *st, const char *phase, int *cra
     mc_poll_sanitizers();
     cur.phase = NULL;
 }
+/* the observer runs on whatever the last operation left behind: a crash in it is a violation of that transition, not the end of the worker */
+static const mc_sys *g_canon_sys; static char *g_canon_buf; static size_t g_canon_n;
+static void canon_tramp(void *st) { g_canon_sys->canon(st, g_canon_buf, g_canon_n); }
+static int e1_canon(const mc_sys *sys, void *st, char *key, size_t n)
+{
+    int c; g_canon_sys = sys; g_canon_buf = key; g_canon_n = n; key[0] = 0;
+    e1_guarded(canon_tramp, st, "observe", &c);
+    return !c;
+}
 static void e1_replay(const mc_sys *sys, const char *spec)
 {
     uint16_t h[MC_MAXHIST]; int n = 0;
@@ -917,7 +926,7 @@ static void e1_replay(const mc_sys *sys, const char *spec)
         cur.hlen = j; cur.op = h[j];
         e1_guarded_apply(sys, st, h[j], &crashed);
         if (crashed) { dprintf(g_errfd, "  %-18s -> CRASH\n", nm); st = NULL; break; }
-        sys->canon(st, key, sizeof key);
+        if (!e1_canon(sys, st, key, sizeof key)) { dprintf(g_errfd, "  %-18s -> CRASH while observing the result\n", nm); st = NULL; break; }
         dprintf(g_errfd, "  %-18s -> %s\n", nm, key);
     }
     cur.hlen = n; cur.op = -1;
@@ -999,7 +1008,7 @@ int mc_e1_run(const mc_sys *sys, int max_depth)
                             if (!crashed) e1_guarded(sys->teardown, st, "teardown", &crashed);
                             continue;
                         }
-                        sys->canon(st, key, sizeof key);
+                        if (!e1_canon(sys, st, key, sizeof key)) continue;
                         if (ss_add(&seen, key)) {
                             e1_guarded(sys->probe, st, "probe", &crashed);
                             if (crashed) continue;
